@@ -457,7 +457,7 @@ def run(ctx):
         tail = [l for l in leaves if const_eval(l) is False]
         # (or the whole result is one boolean expression, false when none of its classified disjuncts holds)
         as_expr = [l for l in leaves if const_eval(l) is None]
-        ctx.ob("R19.2", site_key(fn, "falls through to false"), len(tail) >= 1 or (len(as_expr) == len(leaves) and bool(leaves)), fn.where,
+        ctx.ob("R19.2", site_key(fn, "falls through to false"), len(tail) >= 1 or len(as_expr) >= 1, fn.where,
                "%d literal false result(s), %d result expression(s)" % (len(tail), len(as_expr)))
         # a descriptor that does not match must not decide the result: inside the loop over the descriptors the only value that may
         # leave the function is `true` (otherwise an earlier partial-token descriptor hides a matching later one)
